@@ -131,6 +131,17 @@ func runC07(ctx *core.Ctx, idx int) *core.Result {
 		}
 	}
 	mode := []string{"inplace", "print", "diff", "api"}[r.Intn(4)]
+	if idx%7 == 6 {
+		// a target whose name is so long that no temporary file can be created next to it, and a rewrite that
+		// makes it shorter: whatever the write path falls back to, what ends up on disk has to parse
+		pt, class, mode = "@@\nvar x expression\n@@\n-shrinkThisLongCall(x)\n+s(x)\n", "long-name-shrinking-rewrite", "inplace"
+		src := "package p\n\nfunc f() {\n"
+		for i := 0; i < 3+r.Intn(5); i++ {
+			src += "\tshrinkThisLongCall(" + g.Atom() + ")\n"
+		}
+		src += "}\n\n" + strings.TrimPrefix(g.File(gen.FileOpts{}), "package p\n")
+		files = []fi{{strings.Repeat("L", 240+r.Intn(10)) + ".go", src, false}, {"z_other.go", g.File(gen.FileOpts{}), false}}
+	}
 	var flags []string
 	if r.Intn(2) == 0 {
 		flags = append(flags, "--skip-import-processing")
